@@ -173,6 +173,17 @@ pub fn gen(stream: &str, tier: &str, seed: u64) -> Vec<String> {
                 out.push(format!("{} {}", op, hex("/".repeat(n).as_bytes())));
                 out.push(format!("{} {}", op, hex(format!("$share/g/{}", "/".repeat(n - 9)).as_bytes())));
             }
+            // … and the reserved-looking first levels of OTHER brokers' extensions ($queue = pre-v5 shared
+            // subscriptions, $local, $exclusive, $delayed, $oshare, $aws, …): ordinary levels to this codec
+            {
+                let firsts = ["$queue", "$local", "$exclusive", "$delayed", "$oshare", "$aws", "$share2", "$", "$$", "$shar", "$sy", "$SYSTEM", "$SYS2"];
+                for f in firsts {
+                    for rest in ["", "/", "/t", "/g/t", "/+", "/#", "/g/+", "/g/#", "//t", "/$share/g/t", "/+/t", "/t/"] {
+                        out.push(format!("{} {}", op, hex(format!("{}{}", f, rest).as_bytes())));
+                        out.push(format!("{} {}", op, hex(format!("$share/{}{}", f, rest).as_bytes())));
+                    }
+                }
+            }
             // … and with the CASE variants of the two reserved tokens (4 levels)
             {
                 let toks = ["$share", "$SHARE", "$Share", "$SYS", "$sys", "$Sys", "+", "#", "", "a", "g"];
@@ -1090,6 +1101,12 @@ pub fn lookalike_topics() -> Vec<String> {
                     out.push(format!("{}{}", pre, suf));
                 }
             }
+        }
+    }
+    // reserved-looking first levels of other brokers' extensions: ordinary levels to this codec
+    for f in ["$queue", "$local", "$exclusive", "$delayed", "$oshare", "$aws", "$share2", "$", "$shar", "$SHARE", "$Share", "$sys", "$SYSTEM"] {
+        for rest in ["/t", "/g/t", "/+", "/#", "/g/+", "//t", "/+/t"] {
+            out.push(format!("{}{}", f, rest));
         }
     }
     for w in ["\u{12b}", "\u{123}", "\u{12f}", "\u{100}", "\u{1002b}", "\u{10023}", "\u{10000}"] {
